@@ -80,12 +80,36 @@ class Recorder:
         self.draws = []
         self.rng = None
         self.first = None      # atoms that always draw the smallest values, in this priority (they start their components)
+        self.trace_dfs = False  # capture the locals of the real `_smiles` frame after its DFS loop (every round)
+        self.dfs = None
 
     def __enter__(self):
         rec = self
 
         def _smiles(self_, weights, **kw):
-            res = rec.orig_smiles(self_, weights, **kw)
+            if not rec.trace_dfs:
+                res = rec.orig_smiles(self_, weights, **kw)
+            else:
+                code, line, got = rec.orig_smiles.__code__, dfs_done_line(rec.orig_smiles), []
+
+                def local(frame, event, arg):
+                    if event == 'line' and frame.f_lineno == line:
+                        loc = frame.f_locals
+                        got.append((loc['start'], list(loc['visited']), [(k, list(v)) for k, v in loc['edges'].items()],
+                                    [(k, list(v)) for k, v in loc['tokens'].items()]))
+                    return local
+
+                def tracer(frame, event, arg):
+                    return local if frame.f_code is code else None
+
+                old = sys.gettrace()
+                sys.settrace(tracer)
+                try:
+                    res = rec.orig_smiles(self_, weights, **kw)
+                finally:
+                    sys.settrace(old)
+                if kw.get('_return_order'):
+                    rec.dfs = got
             if kw.get('_return_order'):
                 rec.order = list(res[1])
             return res
@@ -106,6 +130,28 @@ class Recorder:
     def __exit__(self, *a):
         self.S.Smiles._smiles = self.orig_smiles
         self.S.random = self.orig_random
+
+
+_DFS_LINE = []
+
+
+def dfs_done_line(func):
+    """line number of the first statement after the DFS loop of `_smiles` (the flattening starts there); found in the source"""
+    if not _DFS_LINE:
+        import inspect
+        src, first = inspect.getsourcelines(func)
+        hits = [first + i for i, l in enumerate(src) if l.strip() == 'stack = [[start, 0, [start]]]']
+        if len(hits) != 1:
+            raise RuntimeError('C02: cannot locate the end of the DFS loop in Smiles._smiles')
+        _DFS_LINE.append(hits[0])
+    return _DFS_LINE[0]
+
+
+def show_dfs(rounds):
+    return ' / '.join('%d;%s;%s;%s' % (st, ','.join(map(str, vis)),
+                                        ' '.join('%d>%s' % (p, ','.join(map(str, cs))) for p, cs in edges),
+                                        ' '.join('%d>%s' % (a, ','.join('%d:%d' % bc for bc in l)) for a, l in tokens))
+                      for st, vis, edges, tokens in rounds)
 
 
 def components_in_order(mol, order):
@@ -141,11 +187,13 @@ def front_orders(mol):
     return res
 
 
-def real_write(mol, spec, draw_seed=0, first=None):
-    """-> (canonical outcome line, hidden inputs dict) ; the molecule's caches are flushed first (str() is cached)"""
+def real_write(mol, spec, draw_seed=0, first=None, trace=None):
+    """-> (canonical outcome line, hidden inputs dict) ; the molecule's caches are flushed first (str() is cached);
+    `trace`: a list that receives the DFS result of every round (locals of the real frame)"""
     import random as _random
     mol.flush_cache()
     with Recorder() as rec:
+        rec.trace_dfs = trace is not None
         rec.rng = _random.Random(draw_seed)
         rec.first = [first] if isinstance(first, int) else first
         try:
@@ -156,6 +204,8 @@ def real_write(mol, spec, draw_seed=0, first=None):
             text, order = None, None
             line = 'err crash:' + type(e).__name__
         draws = rec.draws
+        if trace is not None and rec.dfs is not None:
+            trace.extend(rec.dfs)
     return line, text, order, draws
 
 
@@ -843,7 +893,7 @@ def generate(ctx):
 
 
 def correspond(ctx):
-    ctx.cov['programs'] = 6  # format(mol, spec) ; smiles_atoms_order (also read first) ; str(mol) ; smiles(text) ; Smiles._smiles token list ; heap allocator
+    ctx.cov['programs'] = 7  # Smiles._smiles DFS locals ; format(mol, spec) ; smiles_atoms_order (also read first) ; str(mol) ; smiles(text) ; Smiles._smiles token list ; heap allocator
     mols = molecules(ctx)
     reqs, expect, meta = [], [], []
     n_specs = 5 if ctx.quick else 9
@@ -896,7 +946,9 @@ def correspond(ctx):
                         specs.append((ctx.rng.choice(['r', 'rh']), [other[0], n]))
             for spec, first in specs:
                 seed = ctx.rng.getrandbits(30)
-                line, text, order, draws = real_write(m, spec, seed, first)
+                want_dfs = spec in ('', 'a', 'r', 'ra') and _state.get('dfs_traced', 0) < (1500 if ctx.quick else 12000)
+                trace = [] if want_dfs else None
+                line, text, order, draws = real_write(m, spec, seed, first, trace)
                 # random order: the draws must be attributable to atoms, otherwise this style is validated by re-reading only
                 modelled = not ('r' in spec and any(a is None for a, _ in draws))
                 nontrivial = m.bonds_count > 0
@@ -906,6 +958,13 @@ def correspond(ctx):
                     meta.append(('W', name, tag, spec, seed, m))
                     ctx.count(('W', spec, tuple(wire.mol_to_ints(m)), tuple(draws)), nontrivial)
                     ctx.dist('style:' + (spec or 'canonical'))
+                    if trace and line.startswith('ok'):
+                        # the DFS itself: start, discovery order, tree (edges), closure records (tokens) of every round, taken
+                        # from the locals of the real frame, must equal the model's (the objects the theorems of §8 speak about)
+                        _state['dfs_traced'] = _state.get('dfs_traced', 0) + 1
+                        reqs.append(request('D', m, spec, order, draws))
+                        expect.append('ok ' + show_dfs(trace))
+                        meta.append(('D', name, tag, spec, seed, m))
                     if (spec in ('', 'a', 'r') or (st and '!s' not in spec)) and line.startswith('ok'):
                         reqs.append(request('C', m, spec, order, draws))
                         expect.append(None)
@@ -963,6 +1022,13 @@ def correspond(ctx):
                 if got != want:
                     ctx.cov['disagreements_checked'] += 1
                     ctx.broke('correspondence', 'writer-text', f'{name}/{tag} [{spec!r}] seed={seed}\n real : {want}\n model: {got}')
+                    _state.setdefault('disagree', []).append((m, spec, seed, name))
+            elif op == 'D':
+                ctx.count(('D', spec, tuple(wire.mol_to_ints(m)), seed), m.bonds_count > 0)
+                ctx.dist('dfs-internals:rounds=%s,closures=%s' % (min(want.count(' / ') + 1, 3), 'yes' if ':' in want else 'no'))
+                if got != want:
+                    ctx.cov['disagreements_checked'] += 1
+                    ctx.broke('correspondence', 'dfs-internals', f'{name}/{tag} [{spec!r}] seed={seed}\n real : {want[:400]}\n model: {got[:400]}')
                     _state.setdefault('disagree', []).append((m, spec, seed, name))
             elif op == 'C':
                 ctx.count(('C', spec, tuple(wire.mol_to_ints(m)), seed), m.bonds_count > 0)
